@@ -25,6 +25,9 @@ def joinWith (sep : Char) : List Str → Str
 def renderCsv (f : Frame) : Str :=
   (joinWith ',' f.cols ++ ['\n']) ++ (f.rows.map (fun r => joinWith ',' r ++ ['\n'])).flatten
 
+/-- a character that is neither white space nor a comma (what a rendered number consists of) -/
+def isPlain (c : Char) : Bool := !(isPyWs c) && !(c = ',')
+
 abbrev FS := List (Str × Str)
 
 def FS.get (fs : FS) (p : Str) : Option Str :=
